@@ -345,8 +345,15 @@ func corruptions(r *rand.Rand, s string) []string {
 	}
 	out = append(out, string(up)) // upper-case hex
 	fl := []byte(s)
-	fl[i] ^= byte(1 << uint(r.Intn(7)))
-	out = append(out, string(fl)) // flipped bit
+	fl[i] ^= byte(1 << uint(r.Intn(8)))
+	out = append(out, string(fl)) // flipped bit (any of the eight)
+	hb := []byte(s)
+	hb[i] = byte(0x80 + r.Intn(128))
+	out = append(out, string(hb)) // a byte outside ASCII
+	if i+1 < len(s) {
+		out = append(out, s[:i]+"\xc3\xa9"+s[i+2:]) // a two-byte UTF-8 character in place of two characters (length kept even)
+		out = append(out, s[:i]+"\xff\xff"+s[i+2:])
+	}
 	return out
 }
 
